@@ -25,6 +25,7 @@ VERIF = common.VERIF
 LEAN = os.path.join(VERIF, "lean")
 OUT = os.environ.get("VERIF_OUT", VERIF)     # evidence/replay root (scratch runs against seeded changes redirect it)
 SYMTIE_PIDS = {"C01", "C05", "C08", "C12", "C14", "C16", "C17", "C18", "C20"}
+SYMHYP_PIDS = {"C01", "C08", "C12"}          # where "candidates cover" is part of the property's own chain
 STD_AXIOMS = {"propext", "Classical.choice", "Quot.sound"}
 FORBIDDEN = re.compile(r"\b(sorry|admit|native_decide|bv_decide|implemented_by|maxHeartbeats\s+0)\b|^\s*axiom\s|\bunsafe\s")
 
@@ -143,8 +144,10 @@ def _worker(args):
         r = common.guarded(timeout, mod.run_case, case)
         if tie:
             # the candidate loop of compute_attractors_symbolic, replayed on the Lean model
-            d2, t2, nt2 = common.guarded(timeout, symtie.finish)
+            d2, t2, nt2, f2 = common.guarded(timeout, symtie.finish)
             r.setdefault("diffs", []).extend(d2)
+            if pid in SYMHYP_PIDS:
+                r.setdefault("fails", []).extend(f2)
             r["tags"] = sorted(set(r.get("tags", [])) | t2)
     except common.Timeout:
         r = {"fails": [], "diffs": [], "timeout": True}
